@@ -1,8 +1,31 @@
 (* C09 -- generated names.  utils/id_gen.rs NameGenerator: gen() = prefix ++ decimal(counter), counter += 1
-   (prefixes table_ and _expr_, sql/pq/context.rs).  Three places make generated names collision-free:
-     assign_names (sql/pq/postprocess.rs:441)      CTE names:   while name is none or already used: name = gen()
-     RelVarNameAssigner::fold_rel (postprocess.rs)  FROM aliases of one SELECT: the same loop
-     anchor_split (sql/pq/anchor.rs:243)           column names at a split: the same loop since fix 75c6718
+   (prefixes table_ and _expr_, sql/pq/context.rs).  The places that draw from the two generators, as they are at
+   /repo HEAD (every one is pinned by vplib/translate/gen_ident_dialect.py, which also checks that there is no other):
+
+   TABLE names (generator table_name), fix 99a89d3:
+     AnchorContext::gen_table_name (context.rs)      loop { name = gen(); if !reserved.contains(name.to_lowercase()) return name }
+                                                      = gen_unreserved / gen_table_name below.  `reserved` is the set of the
+                                                      LOWER-CASED table names and relation aliases the user wrote anywhere in
+                                                      the query (assign_names fills it before anything is generated).
+       used directly by gen_query.rs query_to_set_expr (alias of a wrapped sub-query)
+     assign_names (pq/postprocess.rs)                CTE names in table-id order:
+                                                      while name is none || names.contains(name) { name = gen_table_name() }
+     RelVarNameAssigner::fold_rel (postprocess.rs)   FROM aliases of one atomic pipeline: the same loop
+                                                      = regen_r / assign_names below.  `names` / `relation_instance_names` are
+                                                      compared EXACTLY (spelling); only `reserved` is compared case-insensitively.
+   COLUMN names (generator col_name):
+     AnchorContext::ensure_column_name (context.rs)  an unnamed column gets gen() UNCHECKED          = ensure_column_name
+     anchor_split (pq/anchor.rs), fix 75c6718        per column at a split: ensure_column_name, then
+                                                      while used_new_names.contains(new) { new = gen() }   = split_step / split_names
+     translate_select_item (gen_expr.rs), fix 755de8e alias of a column that has no name:
+                                                      name = gen(); while column_names.values().any(== name) { name = gen() }
+                                                                                                       = select_item_alias
+     All column comparisons are EXACT.
+
+   `lower` is a parameter: Rust's str::to_lowercase (Unicode).  The correspondence runs and the instances in Props/C09.v
+   use lower_ascii; the theorems hold for every `lower` that leaves generated names unchanged.
+   Interfaces follow the verification hooks of /repo (44c332e `verif:namegen {site, old, used, new}`, d5c1b7e
+   `verif:pq-names {.., reserved}`, `verif:ensure_column_name{,_result}`): one model function per logged event.
    Executable definitions only; proofs in Proofs/NameGenProofs.v. *)
 From Coq Require Import List NArith Bool.
 From PV Require Import Lib.ListX Model.SqlLex Model.Literal Model.Ident.
@@ -11,56 +34,119 @@ Local Open Scope N_scope.
 
 Definition gen_name (prefix : str) (n : N) : str := prefix ++ digits_of n.
 
-(* `while cur.is_none() || used.contains(cur) { cur = gen() }`; returns the name and the new counter *)
-Fixpoint regen (fuel : nat) (prefix : str) (used : list str) (cur : option str) (n : N) : option (str * N) :=
+(* NameGenerator::gen: the name and the new counter (never fails; option for uniformity with gen_unreserved) *)
+Definition plain_gen (prefix : str) (n : N) : option (str * N) := Some (gen_name prefix n, N.succ n).
+
+(* loop { let name = gen(); if !reserved.contains(&name.to_lowercase()) { return name } } *)
+Fixpoint gen_unreserved (fuel : nat) (lower : str -> str) (prefix : str) (reserved : list str) (n : N) : option (str * N) :=
+  match fuel with
+  | O => None
+  | S f =>
+      let nm := gen_name prefix n in
+      if mem_str (lower nm) reserved then gen_unreserved f lower prefix reserved (N.succ n) else Some (nm, N.succ n)
+  end.
+
+Definition gen_table_name (lower : str -> str) (prefix : str) (reserved : list str) (n : N) : option (str * N) :=
+  gen_unreserved (S (length reserved)) lower prefix reserved n.
+
+(* what assign_names puts into reserved_table_names: every user table name (last part of the Ident) and alias, lower-cased *)
+Definition reserved_of (lower : str -> str) (user_names : list str) : list str := map lower user_names.
+
+(* `while cur.is_none() || used.contains(cur) { cur = Some(g()) }` for a generator g; returns the name and the new counter *)
+Fixpoint regen_with (g : N -> option (str * N)) (fuel : nat) (used : list str) (cur : option str) (n : N) : option (str * N) :=
   match cur with
   | Some nm =>
       if mem_str nm used then
-        match fuel with O => None | S f => regen f prefix used (Some (gen_name prefix n)) (N.succ n) end
+        match fuel with
+        | O => None
+        | S f => match g n with Some (x, n1) => regen_with g f used (Some x) n1 | None => None end
+        end
       else Some (nm, n)
   | None =>
-      match fuel with O => None | S f => regen f prefix used (Some (gen_name prefix n)) (N.succ n) end
+      match fuel with
+      | O => None
+      | S f => match g n with Some (x, n1) => regen_with g f used (Some x) n1 | None => None end
+      end
   end.
 
-(* assign_names over the table declarations in id order; RelVarNameAssigner over the relation instances of one query *)
-Fixpoint assign_names (prefix : str) (decls : list (option str)) (names : list str) (n : N) : option (list str * N) :=
+(* the column-side loop (anchor_split, translate_select_item): plain generator, exact comparison *)
+Definition regen (fuel : nat) (prefix : str) (used : list str) (cur : option str) (n : N) : option (str * N) :=
+  regen_with (plain_gen prefix) fuel used cur n.
+
+(* the table-side loop (assign_names, RelVarNameAssigner): generator that skips reserved names; one `verif:namegen`
+   event of site assign_names / relvar is  regen_r (S (S (length used))) lower table_ reserved used old n = Some (new, n') *)
+Definition regen_r (fuel : nat) (lower : str -> str) (prefix : str) (reserved used : list str) (cur : option str) (n : N) : option (str * N) :=
+  regen_with (gen_table_name lower prefix reserved) fuel used cur n.
+
+(* assign_names over the table declarations in id order (names = the rendered Idents taken so far);
+   RelVarNameAssigner over the relation instances of one atomic pipeline (names = relation_instance_names) *)
+Fixpoint assign_names (lower : str -> str) (prefix : str) (reserved : list str) (decls : list (option str)) (names : list str) (n : N)
+  : option (list str * N) :=
   match decls with
   | [] => Some ([], n)
   | d :: ds =>
-      match regen (S (S (length names))) prefix names d n with
+      match regen_r (S (S (length names))) lower prefix reserved names d n with
       | None => None
       | Some (nm, n') =>
-          match assign_names prefix ds (nm :: names) n' with
+          match assign_names lower prefix reserved ds (nm :: names) n' with
           | None => None
           | Some (l, n'') => Some (nm :: l, n'')
           end
       end
   end.
 
-(* anchor_split (as repaired by 75c6718): names of the columns at the split (None = wildcard / unnamed);
-   a name already taken at this split is regenerated UNTIL UNUSED, like in the two loops above *)
-Fixpoint split_names (prefix : str) (cols : list (option str)) (used : list str) (n : N) : option (list (option str) * N) :=
-  match cols with
-  | [] => Some ([], n)
-  | None :: cs => match split_names prefix cs used n with Some (l, n') => Some (None :: l, n') | None => None end
-  | Some nm :: cs =>
-      match regen (S (S (length used))) prefix used (Some nm) n with
-      | None => None
-      | Some (nm', n1) =>
-          match split_names prefix cs (nm' :: used) n1 with Some (l, n') => Some (Some nm' :: l, n') | None => None end
-      end
-  end.
-
 Fixpoint somes (l : list (option str)) : list str :=
   match l with [] => [] | Some x :: r => x :: somes r | None :: r => somes r end.
 
-(* the code before 75c6718: a duplicate was replaced by ONE generated name, itself unchecked (kept to show what the
-   repair bought; not what prqlc does now) *)
-Fixpoint split_names_once (prefix : str) (cols : list (option str)) (used : list str) (n : N) : list (option str) * N :=
-  match cols with
-  | [] => ([], n)
-  | None :: cs => let '(l, n') := split_names_once prefix cs used n in (None :: l, n')
-  | Some nm :: cs =>
-      let '(nm', n1) := if mem_str nm used then (gen_name prefix n, N.succ n) else (nm, n) in
-      let '(l, n') := split_names_once prefix cs (nm' :: used) n1 in (Some nm' :: l, n')
+(* ---------------------------------------------------------------- columns *)
+
+(* what ensure_column_name looks at: the declaration of the column ... *)
+Inductive cdecl :=
+  | DWild                          (* RelationColumn(_, _, Wildcard) *)
+  | DSingle (nm : option str)      (* RelationColumn(_, _, Single(nm)) *)
+  | DCompute.                      (* Compute(_) *)
+
+(* ... and the name it already has in column_names (`before`).  Returns the function's result and the new counter. *)
+Definition ensure_column_name (prefix : str) (d : cdecl) (before : option str) (n : N) : option str * N :=
+  match d with
+  | DWild => (None, n)
+  | DSingle (Some nm) => (Some (match before with Some b => b | None => nm end), n)
+  | _ => match before with Some b => (Some b, n) | None => (Some (gen_name prefix n), N.succ n) end
   end.
+
+(* anchor_split, one column: `old` is what ensure_column_name returned.  One `verif:namegen` event of site anchor_split is
+   split_step _expr_ used old n = Some (new, n') *)
+Definition split_step (prefix : str) (used : list str) (old : option str) (n : N) : option (option str * N) :=
+  match old with
+  | None => Some (None, n)
+  | Some nm =>
+      match regen (S (S (length used))) prefix used (Some nm) n with
+      | Some (x, n') => Some (Some x, n')
+      | None => None
+      end
+  end.
+
+Definition add_used (x : option str) (used : list str) : list str := match x with Some s => s :: used | None => used end.
+
+(* anchor_split over the columns at the split (declaration, name in column_names before the call) *)
+Fixpoint split_names (prefix : str) (cols : list (cdecl * option str)) (used : list str) (n : N) : option (list (option str) * N) :=
+  match cols with
+  | [] => Some ([], n)
+  | (d, b) :: cs =>
+      let '(old, n0) := ensure_column_name prefix d b n in
+      match split_step prefix used old n0 with
+      | None => None
+      | Some (new, n1) =>
+          match split_names prefix cs (add_used new used) n1 with
+          | Some (l, n') => Some (new :: l, n')
+          | None => None
+          end
+      end
+  end.
+
+(* translate_select_item: alias of a column without a name; `used` = column_names.values() *)
+Definition select_item_alias (prefix : str) (used : list str) (n : N) : option (str * N) :=
+  regen (S (S (length used))) prefix used None n.
+
+(* is_ascii for the statement that relates Unicode lower-casing to the ASCII case folding of SQLite *)
+Definition ascii_only (s : str) : bool := forallb (fun c => c <? 128) s.
